@@ -93,8 +93,16 @@ PROPS = {
         "level_text": "Lean theorems about the input-queue model (a byte read consumes exactly one byte, fails only on hang-up, waiting "
                       "loses nothing) and an executable model of the whole decoder and editor that is diffed against the real "
                       "Editor::readline on a pseudo-terminal for arbitrary byte streams; the no-panic / no-wedge / no-stall oracle runs "
-                      "on the implementation's own observations. Partial: the lift of progress through the escape tables and the "
-                      "editor-level no-panic invariant are stated, not yet proved; signals and real timing are exercised, not proved.",
+                      "on the implementation's own observations. Editor level, proved per command (C17_execute_safe): from a state satisfying EdWF (cursor of "
+                      "the line and of the saved line on a character boundary, history index within the history, kill-ring bounds "
+                      "invariant RingOK) and for helpers that do not panic, execute neither "
+                      "panics nor breaks EdWF for all Move commands, Kill (every movement), Replace, Yank, ViYankTo, SelfInsert, Newline, Insert, CompleteHint, TransposeChars, "
+                      "Capitalize/Downcase/UpcaseWord, TransposeWords, ClearScreen, Repaint, Interrupt, EndOfFile, AcceptLine, "
+                      "AcceptOrInsertLine (validator not panicking) and the commands execute ignores; next_cmd (all keymaps) preserves "
+                      "EdWF (C17_nextCmd_keeps_wf); the initial state satisfies it. Partial: YankPop, Undo, "
+                      "ReplaceChar, Overwrite, Indent/Dedent, the history commands and the sub-loops are not covered yet, so the "
+                      "whole-read statement stays C17_editor_no_panic_statement; a completer reporting start > cursor is a real panic "
+                      "source (C17_completer_start_beyond_cursor_panics), excluded by hypothesis; signals and real timing are exercised, not proved.",
         "level_note": "Trusted: Lean kernel; pty harness (quiescence detection via /proc) and diff; utf8parse as standard UTF-8 validation; "
                       "kernel tty layer. Partial claim: see unproved statements in evidence.",
         "assumptions": ["keyseq_timeout = None (default)", "keys are delivered one key press at a time or as one type-ahead write"],
@@ -113,11 +121,15 @@ PROPS = {
         "exhaustive": {"quick": False, "thorough": False},
         "trusted_base": ["the scripted validator is a function of the text only (same table on both sides)",
                          "pty harness and diff"],
-        "unproved": ["C13_submit_requires_valid_statement"],
+        "unproved": [],
         "level_text": "Lean theorems about the Enter decision table of the editor model (submit only on Valid; Valid always submits for the "
                       "Enter binding; Incomplete inserts a line break; Invalid with message leaves the text), the editor model diffed "
                       "against the real editor on a pty, and the C13 oracle evaluated on the implementation's callbacks and result. "
-                      "The non-terminal clause is proved in C18 (C18_validator…). Partial: the step-level statement is stated, not yet proved.",
+                      "The non-terminal clause is proved in C18 (C18_validator…). Step level, proved for every state and every validator "
+                      "function: execute(AcceptOrInsertLine) submits only if the verdict on the current text was Valid and hands back "
+                      "exactly that line (C13_submit_requires_valid, C13_execute_submit); Incomplete => the line becomes "
+                      "LineBuffer::insert('\\n',1) of the old one and the read goes on (total from a well-formed cursor); Invalid with "
+                      "message => line unchanged, read goes on; validator error => the step exits with the error outcome, text untouched.",
         "level_note": "Trusted: Lean kernel; pty harness; scripted validators. Cmd::AcceptLine bound by an application and vi EndOfFile are "
                       "outside the statement (DESIGN 7.1).",
         "assumptions": ["validators are functions of the text"],
@@ -245,8 +257,8 @@ PROPS["C07"] = {
     "exhaustive": {"quick": False, "thorough": False},
     "trusted_base": ["pty harness (quiescence detection through /proc, one key press at a time) and diff",
                      "scripted helpers are functions of the text (same table on both sides)"],
-    "unproved": ['C07_model_prev_statement'],
-    "level_text": "Lean theorems about the C07 navigation spec machine (up shows the stored entry verbatim with the cursor at its end; stops at the oldest; leaving and coming back restores the in-progress line and cursor exactly), the editor model diffed against the real editor on a pty, and the spec machine run as an oracle over the implementation's callbacks (entries in order, saved line restored char for char with its cursor, first/last, line-wise Up/Down first, stored history unchanged). Partial: the refinement model => spec machine is stated, not yet proved; the SQLite back end is covered by C20.",
+    "unproved": [],
+    "level_text": "Lean theorems about the C07 navigation spec machine (up shows the stored entry verbatim with the cursor at its end; stops at the oldest; leaving and coming back restores the in-progress line and cursor exactly), the editor model diffed against the real editor on a pty, and the spec machine run as an oracle over the implementation's callbacks (entries in order, saved line restored char for char with its cursor, first/last, line-wise Up/Down first, stored history unchanged). Proved about the editor model: from a navigable state (growable buffers, cursors inside their texts, index within the history) editHistoryNext / editHistory never panic and refine the declarative steps navPrev / navNext / navFirst / navLast on (line, cursor, index, saved line) (C07_prev_refines, C07_next_refines, C07_model_prev); first/last equal the iterated single steps (C07_first_is_iterated_prev, C07_last_is_iterated_next); the saved line is written only when leaving the in-progress position (C07_saved_once); over arbitrary sequences of steps mixed with edits of recalled entries, returning to the end restores the in-progress line and cursor exactly (C07_return_restores). The SQLite back end is covered by C20.",
     "level_note": 'Trusted: Lean kernel; pty harness; FileHistory back end only in this check.',
     "assumptions": ["keyseq_timeout = None (default)"],
 }
@@ -260,7 +272,7 @@ PROPS["C08"] = {
     "trusted_base": ["pty harness (quiescence detection through /proc, one key press at a time) and diff",
                      "scripted helpers are functions of the text (same table on both sides)"],
     "unproved": ['C08_abort_restores_statement'],
-    "level_text": "Lean theorems: a successful search step of the model shows a stored entry containing the text at the cursor, nearest in the search direction (corollary of the C09 theorems); a failed step means no entry on that side matches; the oracle's search function equals the model's (Spec.find = MemHist.search). The editor model is diffed against the real editor; the search-loop spec machine runs as oracle over the implementation's callbacks. Partial: abort transparency at the level of the undo log is stated, not yet proved (checked by the C05/C14 oracles).",
+    "level_text": "Lean theorems: a successful search step of the model shows a stored entry containing the text at the cursor, nearest in the search direction (corollary of the C09 theorems); a failed step means no entry on that side matches; the oracle's search function equals the model's (Spec.find = MemHist.search). The editor model is diffed against the real editor; the search-loop spec machine runs as oracle over the implementation's callbacks. Proved by a loop invariant over searchLoop for all key sequences: whenever the search ends without handing a command back (C-g), text and cursor are exactly those from before the search (C08_abort_restores; growable buffer). Partial: the undo-stack clause of the first-draft statement is kept as C08_abort_restores_statement: it is too strong in vi mode with a key custom-bound to Abort (leaving insert mode closes an undo group below the mark); transparency of the undo log is checked by the C05/C14 oracles.",
     "level_note": 'Trusted: Lean kernel; pty harness; str::find as naive search (C09).',
     "assumptions": ["keyseq_timeout = None (default)"],
 }
@@ -274,7 +286,7 @@ PROPS["C14"] = {
     "trusted_base": ["pty harness (quiescence detection through /proc, one key press at a time) and diff",
                      "scripted helpers are functions of the text (same table on both sides)"],
     "unproved": ['C14_abort_restores_statement'],
-    "level_text": "Lean theorems about the circular index arithmetic of the model (stays in range, k Tabs show candidate k mod (n+1), Shift-Tab is the inverse permutation) and the span-only shape of what is shown; the editor model is diffed against the real editor; the completion spec machine runs as oracle over the implementation's callbacks. Partial: abort/undo transparency of the model is stated, not yet proved; the paging dialogue is correspondence-checked only.",
+    "level_text": "Lean theorems about the circular index arithmetic of the model (stays in range, k Tabs show candidate k mod (n+1), Shift-Tab is the inverse permutation) and the span-only shape of what is shown; the editor model is diffed against the real editor; the completion spec machine runs as oracle over the implementation's callbacks. Proved by a loop invariant over completeCircular for all candidate lists, start offsets, numbers of Tab / Shift-Tab presses and keys decoded in between: whenever circular completion ends without handing a command back (Esc / C-g, or no candidates) text and cursor are exactly those from before (C14_abort_restores; growable buffer — the first-draft statement without that hypothesis is kept as C14_abort_restores_statement with the reason, C14_update_truncates_fixed_buffer). Partial: undo-log transparency of abort/accept is checked by the oracle, not proved; the paging dialogue is correspondence-checked only.",
     "level_note": 'Trusted: Lean kernel; pty harness; completers reporting start > cursor are excluded (helper bug).',
     "assumptions": ["keyseq_timeout = None (default)"],
 }
@@ -569,6 +581,55 @@ PROPS["C11"] = {
 
 # properties not (yet) claimed, with the reason (kept current; see DESIGN.md)
 NOT_APPLICABLE = {
+}
+PROPS["C05"] = {
+    "module": "Rl.Props.C05",
+    "targets": [{"name": "ed05", "gen": "ed05", "header_tokens": 9}],
+    "shards": {"quick": 8, "thorough": 16},
+    "rule": 'ed05: key scripts on a pty, emacs (5/6) and vi, in which four fifths of the emacs keys come from the undo mix: typed characters (alphanumeric, blank, punctuation, multi-byte), the Undo probe C-_ at arbitrary points (also with the numeric argument M-2), Backspace / C-d / C-h, kills (C-w C-k C-u M-d M-DEL), yank, C-t / M-t / M-u / M-l / M-c, motions, quoted insert, a bracketed paste, an aborted incremental search (C-r text C-g); the rest are the general emacs / vi key mixes (history, completion with a scripted completer, searches, vi insert sessions and u). Oracle: oracleC05 over the Event::Any callbacks (every post-undo text occurred earlier in the same read; one undo does not jump past the state before the most recent word-sized-or-larger edit; repeated undo reaches the empty line; an aborted search or completion leaves the following undo as if it had not been started) plus the C17 sanity oracle.',
+    "trivial_impl_regex": r"=> .*",
+    "exhaustive": {"quick": False, "thorough": False},
+    "trusted_base": ["pty harness (quiescence detection through /proc, one key press at a time) and diff",
+                     "scripted helpers are functions of the text (same table on both sides)",
+                     "the theorems are about the Changeset model (Rl/Undo.lean) and the three line-buffer primitives Change::undo calls; that the editor model keeps `replayLog undos = line` across whole commands (every LineBuffer call reports exactly what it did: property C03) is checked by the differential run and the oracle, not proved"],
+    "unproved": ['C05_abort_transparent_statement'],
+    "level_text": "Lean theorems, for every stack and every notification sequence (no bound), about the undo-log model: the stack is an exact log (replaying it oldest-first reproduces the line after any listener notifications, all three merge rules included: C05_log_replay, C05_log_markers); Begin/End stay balanced under begin / notifications / truncate and end closes all levels (C05_balanced); begin ... truncate(mark) restores stack and level exactly (C05_truncate_restores: the D10 repair); one pass of the undo loop pops exactly one unit - one change or one complete End..Begin group - for every repeat count (C05_undo_unit, also for the model's own loop); Change::undo inverts a recorded change on the line buffer, proved from the LineBuffer definitions (C05_undo_inverts); under the log invariant Undo with any count never panics and leaves the line at the replay of the remaining older log, and an emptied stack means the start text (C05_undo_past_text, C05_undo_to_empty). The editor model is diffed against the real editor on a pty and oracleC05 runs over the implementation's callbacks. Partial: the lifting of the log invariant and of abort transparency to whole editor commands (Ed states) is stated, not proved; D22 (a typed alphanumeric merges into a preceding yank/paste Insert) is recorded as a witness theorem and deliberately not judged by the oracle.",
+    "level_note": 'Trusted: Lean kernel; pty harness; the log-level theorems take the notification stream as given (its faithfulness is C03).',
+    "assumptions": ["keyseq_timeout = None (default)"],
+}
+
+PROPS["C06"] = {
+    "module": "Rl.Props.C06",
+    "targets": [{"name": "ed06", "gen": "ed06", "header_tokens": 9}],
+    "shards": {"quick": 8, "thorough": 16},
+    "rule": 'ed06: key scripts on a pty, emacs (3/4) and vi, in which three quarters of the keys come from the kill mix: runs of 1-4 kill commands (C-k, C-u, C-w, M-d, M-DEL, a fifth of them with numeric arguments M-1..3 and negative arguments M--) followed by C-y and 0-3 M-y, single-character deletions (C-d, Backspace, C-h, Delete), stray C-y / M-y, motions, C-l, typed text; vi: d/c + motion with counts, dd, D, x X, p P. Oracle: oracleC06 over the Event::Any callbacks (kill then yank re-inserts exactly the removed text; a run of kills yanks back as one text in left-to-right order; character deletions neither enter nor extend the kill; yank-pop replaces exactly the yanked text by the previous kill, cyclically; yank-pop without a yank does nothing) plus the C17 sanity oracle. Known finding D33 is matched by its spec verdict.',
+    "trivial_impl_regex": r"=> .*",
+    "exhaustive": {"quick": False, "thorough": False},
+    "trusted_base": ["pty harness (quiescence detection through /proc, one key press at a time) and diff",
+                     "scripted helpers are functions of the text (same table on both sides)",
+                     "the theorems are about the KillRing model and the listener fan-out; which editor command issues which ring operation (lbKill / ringYank / ringYankPop / shouldResetKillRing in Rl/Editor.lean) is tied to the code by the differential run",
+                     "slots.capacity() is modelled as the requested size (60): Vec::with_capacity may reserve more"],
+    "unproved": ['C06_yank_pop_most_recent_statement'],
+    "level_text": "Lean theorems for ALL reachable kill rings (induction over any sequence of ring operations, any capacity): the invariant (slots within capacity, index addresses a slot, last action = kill only with a non-empty ring) holds and kill / yank / yank-pop never hit slots[index] out of range (C06_ring_bounds, C06_no_panic); kill from a non-kill last action then yank returns exactly the killed text (C06_kill_yank, C06_kill_yank_reachable); any mixed run of forward and backward directional kills accumulates so that one yank returns slot with T0 = T1[..p] ++ slot ++ T1[p..] (C06_accumulate); deletions reported while not killing leave the ring unchanged, LineBuffer::kill sends no start_killing for the two character movements, and these commands reset the last action so the next kill opens a fresh slot (C06_char_delete, C06_char_kill_ring_unchanged); directly after a yank, j yank-pops replace the size just inserted by the slot one further back, cyclically through the stored slots and nothing else (C06_yank_pop, full cycle = number of slots). The editor model is diffed against the real editor on a pty and oracleC06 runs over the implementation's callbacks. Partial: 'cycling through the MOST RECENT kills' fails after a kill that follows a yank-pop (D33, known finding; C06_D33_counterexample proves it of the model), so that clause is stated (C06_yank_pop_most_recent_statement), not proved; kills across reads are covered by the model carrying the ring (initEd) and checked only through the raw / printer harnesses that run several reads.",
+    "level_note": 'Trusted: Lean kernel; pty harness; D33 is reported as KNOWN-FINDING, not repaired (needs a separate top index).',
+    "assumptions": ["keyseq_timeout = None (default)"],
+}
+
+PROPS["C01"] = {
+    "module": "Rl.Props.C01",
+    "targets": [{"name": "ed01", "gen": "ed01", "header_tokens": 9}],
+    "shards": {"quick": 8, "thorough": 16},
+    "rule": 'ed01: emacs and vi key scripts on a pty built from the README tables: printable text (1-4 byte, wide, combining), every documented key in every byte encoding (control bytes, ESC-prefixed Meta, CSI / SS3 / vt ~ / rxvt / linux-console arrows, Home, End, Delete, Alt- and Ctrl-arrows, Meta-Backspace), numeric arguments M-[-]d1..dk (digits with and without Meta, up to 5 digits, minus alone) before counted commands, vi counts, vi operator x [count] motion (d c y x h l w b e W B E 0 $ ^ f t F T ; , j k, doubled operator), r s S C D x X a A i I, quoted insert, C-x pairs, custom bindings of single keys (incl. a rebound documented key, an Alt key, a plain letter) and two-key sequences to a 17-command vocabulary, initial text (multi-line), history, scripted helpers, one-key-at-a-time and type-ahead delivery, with and without the external printer. Oracle (Lean, on the implementation): the documented key groups of the request are aligned with the Event::Any callbacks; count and direction shown to the handler, the text, cursor and vi input mode after each key, and the outcome of the read must be the documented ones.',
+    "trivial_impl_regex": r"=> .*",
+    "exhaustive": {"quick": False, "thorough": False},
+    "trusted_base": ["pty harness (quiescence detection through /proc, one key press at a time or one type-ahead write) and diff",
+                     "scripted helpers are functions of the text (same table on both sides)",
+                     "the README tables and the byte-encoding table are transcribed by hand into Rl/Spec/Doc.lean",
+                     "the oracle stops judging (never guesses) where it cannot follow the key grouping: byte strings outside the documented encodings, completion and vi-mode search sub-loops, input ending inside a group"],
+    "unproved": ["C01_self_insert_once_statement", "C01_motion_pure_statement", "C01_outcome_statement"],
+    "level_text": "Lean theorems: every argument-free entry of the README tables for emacs mode (own table and the all-modes table), for every state, pending count and direction, is mapped by the model's keymap to the Cmd denoting the documented action resolved with the GNU count/direction conventions (C01_binding_table_emacs, _emacs_common); the count handed to a command after M-[-]d1..dk is the signed decimal value, first four significant digits (C01_numeric_argument, C01_arg_value_*); a printable character is inserted exactly once at the cursor (partial: without helper); no Move command except ViFirstPrint changes the text (partial); C-c is the interrupted outcome. The editor model is diffed against the real Editor::readline on a pty, and the documented-meaning oracle (README tables as data, declarative C04 targets) runs on the implementation's callbacks for every generated script. Partial: vi tables, operator+motion and the read-loop outcome are covered by the oracle and the correspondence only.",
+    "level_note": "Trusted: Lean kernel; pty harness; hand transcription of the README tables and byte encodings; the oracle stops judging where it cannot follow the key grouping. Reading decisions: vi C-d on a non-empty line, counts of 0, a minus typed after digits, `^` on a blank line, n-th character search with fewer than n occurrences, `a` with a count are not judged.",
+    "assumptions": ["keyseq_timeout = None (default)"],
 }
 for _p in ["C01","C02","C03","C04","C05","C06","C07","C08","C10","C11","C12","C13","C14","C15","C16","C17","C18","C19","C20"]:
     if _p not in PROPS:
